@@ -6,12 +6,13 @@ import numpy as np
 
 import common
 import oracles
+import replay_run
 import ticc_util as tu
 from common import show_list, frac_str
 
 LEVEL = "proof"
-LEAN_PROPS = ["FastTicc.Props.C06", "FastTicc.Props.C01", "FastTicc.Props.C07mask"]
-LEAN_HELPERS = ["FastTicc.Proofs.Result", "FastTicc.Proofs.ResultCost"]
+LEAN_PROPS = ["FastTicc.Props.C06", "FastTicc.Props.C01", "FastTicc.Props.C07mask", "FastTicc.Props.Final"]
+LEAN_HELPERS = ["FastTicc.Proofs.Result", "FastTicc.Proofs.ResultCost", "FastTicc.Proofs.Final"]
 RULE = ("(a) synthetic (labels, per-point log-likelihood) inputs incl. empty clusters and -1 markers through the real "
         "per-cluster collection; (b) complete runs of both front ends (scalar and per-pair beta, converged or stopped "
         "by the limit, with empty final clusters when they occur); non-trivial = at least one label switch in the "
@@ -152,3 +153,7 @@ def run(ctx):
         if not ok:
             ctx.violation("correspondence-break", "assemble (model aggregates) vs result fields", cfg)
     ctx.extra["runs_completed"] = completed
+
+    # ---------------- (c) whole-result replay: the complete result of a traced real run must be Final.report of the
+    # composed Lean model run on the same data, initial labelling, random draws and ADMM outputs
+    replay_run.whole_result_section(ctx, cfgs, ("cost", "ll"), 6 if ctx.quick() else 40)
